@@ -722,7 +722,9 @@ func (c *Ctx) execIndexAddr(s *State, x *ssa.IndexAddr) {
 		inb := And(Le(IntLit(0), idx), Lt(idx, sl.Len))
 		c.oblige(s, "safe", name, inb, pos, "index out of range", []string{"C18"})
 		s.assume(inb)
-		c.setVal(s, x, Sc{T: c.elemAddrTerm(sl.Arr, Add(sl.Off, idx)), Prov: &Prov{Kind: 2, Base: sl.Arr, Idx: Add(sl.Off, idx), ElemT: xt.Elem()}})
+		ea := c.elemAddrTerm(sl.Arr, Add(sl.Off, idx))
+		s.assume(Not(Eq(ea, IntLit(0)))) // the address of an in-bounds element is never nil
+		c.setVal(s, x, Sc{T: ea, Prov: &Prov{Kind: 2, Base: sl.Arr, Idx: Add(sl.Off, idx), ElemT: xt.Elem()}})
 	case *types.Pointer:
 		at := xt.Elem().Underlying().(*types.Array)
 		p := c.val(s, x.X).(Sc)
@@ -730,7 +732,9 @@ func (c *Ctx) execIndexAddr(s *State, x *ssa.IndexAddr) {
 		inb := And(Le(IntLit(0), idx), Lt(idx, IntLit(at.Len())))
 		c.oblige(s, "safe", name, inb, pos, "index out of range", []string{"C18"})
 		s.assume(inb)
-		c.setVal(s, x, Sc{T: c.elemAddrTerm(p.T, idx), Prov: &Prov{Kind: 2, Base: p.T, Idx: idx, ElemT: at.Elem()}})
+		ea := c.elemAddrTerm(p.T, idx)
+		s.assume(Not(Eq(ea, IntLit(0))))
+		c.setVal(s, x, Sc{T: ea, Prov: &Prov{Kind: 2, Base: p.T, Idx: idx, ElemT: at.Elem()}})
 	default:
 		c.unsupported("IndexAddr on " + x.X.Type().String())
 		c.setVal(s, x, Sc{T: c.freshConst("ia", SInt)})
